@@ -43,8 +43,8 @@ Print Assumptions C16_close_truncates.
 
 (* ---- non-vacuity ---- *)
 Example ex_nested :
-  let s := CIf (CCons (CFor true true (CCons (CSwitch true (CCCons false (CCons (CClosure 2 (CCons (CReturn false) CNil)) (CCons (CInline (CCons CConstExpr (CCons CCall CNil))) CNil))
+  let s := CIf (CCons (CFor true true (CCons (CSwitch true (CCCons false (CCons (CClosure 2 (CCons (CReturn false) CNil)) (CCons (CInline (CCons CConstExpr (CCons CCall CNil))) (CCons (CVBlock (CCons CDefine (CCons (CBlock (CCons CCall CNil)) CNil))) CNil)))
                  (CCCons true (CCons CBranch CNil) CCNil))) CNil)) CNil) (EIf (CIf CNil (EBlock (CCons CDefine CNil)))) in
   run (compile s) (mkSt 3 3 7 2 4 [mkFrame 1 4 2 1] 10 5) = Some (mkSt 3 3 7 2 4 [mkFrame 1 4 2 1] (10 + nsc s) (5 + nfc s)) /\
-  nsc s = 13 /\ nfc s = 2.
+  nsc s = 15 /\ nfc s = 2.
 Proof. vm_compute. repeat split. Qed.
